@@ -104,11 +104,53 @@ func leafVariants() []leafDoc {
 		{"padded-column", `<mj-section><mj-column padding="10px" border="1px solid #000">`, `</mj-column></mj-section>`},
 	}
 	var out []leafDoc
+	out = append(out, attrSweepDocs()...)
 	for _, c := range contexts {
 		for _, l := range leaves {
 			for k, kids := range l.kids {
 				body := l.open + kids + l.close
 				out = append(out, leafDoc{desc: fmt.Sprintf("%s/%s/%d", c.name, l.name, k), src: "<mjml><mj-body>" + c.pre + body + c.post + "</mj-body></mjml>"})
+			}
+		}
+	}
+	return out
+}
+
+// attrSweepDocs: every component in its legal context with every one of its attributes set to a typed non-default value — one
+// attribute at a time and every pair of attributes (markup paths are chosen by attribute combinations: href with usemap,
+// background-url with full-width, height with mode, …)
+func attrSweepDocs() []leafDoc {
+	var out []leafDoc
+	for _, tag := range bodyTags {
+		if tag == "mj-raw" {
+			continue
+		}
+		type av struct{ a, v string }
+		var avs []av
+		for _, a := range allowedSorted(tag) {
+			if a[0] == "mj-class" {
+				continue
+			}
+			v1, v2 := testValues(a[0], a[1])
+			if v1 == "" {
+				continue
+			}
+			avs = append(avs, av{a[0], v1})
+			if strings.HasPrefix(a[1], "enum(") && v2 != v1 {
+				avs = append(avs, av{a[0], v2})
+			}
+		}
+		for i, x := range avs {
+			if src := legalContext(tag, x.a+`="`+xmlAttrEsc(x.v)+`"`, ""); src != "" {
+				out = append(out, leafDoc{desc: "attr/" + tag + "/" + x.a, src: src})
+			}
+			for _, y := range avs[i+1:] {
+				if y.a == x.a {
+					continue
+				}
+				if src := legalContext(tag, x.a+`="`+xmlAttrEsc(x.v)+`" `+y.a+`="`+xmlAttrEsc(y.v)+`"`, ""); src != "" {
+					out = append(out, leafDoc{desc: "attr/" + tag + "/" + x.a + "+" + y.a, src: src})
+				}
 			}
 		}
 	}
